@@ -286,7 +286,7 @@ class CardMonitor(Monitor):
 
 
 def make_monitors():
-    return [CardMonitor()]
+    return [driver.Observer(0.1), CardMonitor()]
 
 
 def gen_kwargs(rng):
